@@ -93,7 +93,20 @@ func runC01(r *vk.Run) {
 		n := rng.Range(5, 60)
 		ds := genDataset(rng, format, n, logT0)
 		unknown, undecided := 0, 0
-		q := genLogQuery(rng, ds, genOpts{Distinct: true, MaxStages: 5}, &unknown, &undecided)
+		maxStages := 5
+		if c.Idx%12 == 5 {
+			// long pipelines (13 .. 24 stages): stages apply in the order they are written, however many there are
+			maxStages = 24
+		}
+		q := genLogQuery(rng, ds, genOpts{Distinct: true, MaxStages: maxStages}, &unknown, &undecided)
+		if c.Idx%12 == 5 {
+			for tries := 0; len(q.Stages) < 13 && tries < 20; tries++ {
+				q = genLogQuery(rng, ds, genOpts{Distinct: true, MaxStages: maxStages}, &unknown, &undecided)
+			}
+			if len(q.Stages) >= 13 {
+				c.Count("pipelines_of_13_or_more_stages", 1)
+			}
+		}
 		if rng.Chance(1, 5) {
 			// a last stage that rewrites a label the records inherit from their source: whatever it writes
 			// belongs to that one record; the selector and the filters before it read, for every record,
@@ -300,6 +313,51 @@ func runC01(r *vk.Run) {
 	})
 	r.Require("daemon_cases_with_unterminated_lines", 200)
 
+	// many stages: a parser followed by 11..18 label filters, one per stage, and a line filter at the very end
+	// returns what the same conditions return when the label filters are written as ONE stage joined by
+	// `and` and the line filter stands first (a line filter does not care where it stands among stages that
+	// leave the line alone). Stages apply in the order written, however many there are
+	r.Phase("longpipes", r.N(200, 20000), func(c *vk.Case) {
+		rng := c.Rng
+		n := rng.Range(8, 30)
+		ds := genDataset(rng, "json", n, logT0)
+		conds := []string{`id=~".+"`, `level!="nope"`, `level=~".+"`, `user!="nobody"`, `id!=""`, `level!="trace"`, `id=~"r[0-9]+"`, `user!~"zz.*"`, `status!="teapot"`, `addr!="nowhere"`,
+			`level=~"info|warn|error|debug|.*"`, `id!="r999"`, `app=~".+"`, `size!="huge"`, `dur!="forever"`}
+		k := rng.Range(11, 18)
+		var picked []string
+		for i := 0; i < k; i++ {
+			picked = append(picked, vk.Pick(rng, conds))
+		}
+		needle := quoteLogQL(vk.Pick(rng, []string{"r", "level", "1", "\"id\"", "e"}))
+		long := `{app=~".+"} | json | ` + strings.Join(picked, " | ") + ` |= ` + needle
+		short := `{app=~".+"} |= ` + needle + ` | json | ` + strings.Join(picked, " and ")
+		a, err1 := evalQuery(&MemQuerier{Recs: ds.Recs, ErrAfter: -1}, long, logRangeParams(n))
+		b, err2 := evalQuery(&MemQuerier{Recs: ds.Recs, ErrAfter: -1}, short, logRangeParams(n))
+		c.Eval(2)
+		det := map[string]any{"long": long, "short": short, "records": ds.Recs}
+		if err1 != nil || err2 != nil {
+			c.Fail("", fmt.Sprintf("long pipeline: %v; one-stage form: %v", err1, err2), det)
+			return
+		}
+		if a.Canonical() != b.Canonical() {
+			det["long_result"], det["short_result"] = trunc(a.Canonical(), 2000), trunc(b.Canonical(), 2000)
+			na, nb := 0, 0
+			for _, st := range a.Streams {
+				na += len(st.Entries)
+			}
+			for _, st := range b.Streams {
+				nb += len(st.Entries)
+			}
+			c.Fail("", fmt.Sprintf("a pipeline of %d stages returns %d entries, the same conditions written as three stages return %d: %s", k+2, na, nb, long), det)
+			return
+		}
+		c.Count("long_pipelines_compared", 1)
+		if len(b.Streams) > 0 {
+			c.Nontrivial(fmt.Sprintf("longpipes|%d", c.Idx))
+		}
+	})
+	r.Require("long_pipelines_compared", 150)
+
 	// an address inside running text: what stands directly before and after it (CJK / Cyrillic / accented
 	// text written without blanks, quotes, brackets, punctuation) is not part of the address. Every line
 	// holds exactly one address, so "contains an address inside the pattern" has one reading, for |= and !=
@@ -359,6 +417,7 @@ func runC01(r *vk.Run) {
 		c.Nontrivial(fmt.Sprintf("ipn|%d", c.Idx))
 	})
 	r.Require("addresses_in_running_text", 2000)
+	r.Require("pipelines_of_13_or_more_stages", 200)
 
 	// a container may write the same line twice within one clock reading: two records. Every record of the
 	// dataset is given k identical copies (same timestamp, line, labels); a stateless pipeline must return
@@ -508,5 +567,6 @@ func runC01(r *vk.Run) {
 	r.Require("distinct_nontrivial", 300)
 	r.Require("evaluations_with_offload", 1000)
 	r.Require("stage:distinct", 50)
+	phaseFlaky(r, "C01")
 	r.Require("stage:labelfilter", 500)
 }
